@@ -57,8 +57,8 @@ def main(ctx, replay=None):
                        "(key, tensor, strain field); all non-trivial; expected bags/strains/target from TLC")
     ctx.assumptions += ["float rotation of test tensors with the solver's own eigenvectors (numpy.einsum) in the harness"]
     rng = numpy.random.default_rng(ctx.seed + 303)
-    nrand = 8 if ctx.tier == "quick" else 60
-    nstrain = 1 if ctx.tier == "quick" else 3
+    nrand = 8 if ctx.tier == "quick" else 200
+    nstrain = 1 if ctx.tier == "quick" else 6
     keys21 = [(I, J) for I in range(1, 7) for J in range(I, 7)]
 
     for row in sorted(rows, key=lambda r: r["key"]):
